@@ -257,7 +257,7 @@ fn main() {
                             }
                         }
                     }
-                    let prog_src = format!("#![allow(warnings)]\nmod b {{ {bindings} }}\nuse b::*;\nfn main() {{\n{body}\nprintln!(\"done\");\n}}\n");
+                    let prog_src = format!("#![allow(warnings)]\nmod b {{ {bindings} }}\nuse b::*;\nfn main() {{\n// big stack: the probed types can be megabytes large (arrays of arrays of records)\nstd::thread::Builder::new().stack_size(3 << 30).spawn(|| {{\n{body}\nprintln!(\"done\");\n}}).unwrap().join().unwrap();\n}}\n");
                     match rustc_bin(&scratch, &format!("t{idx}"), &prog_src, &[], &[]) {
                         Ok(exe) => {
                             let (rc, o, e) = run_exe(&exe);
